@@ -32,6 +32,8 @@ pub struct Part {
   /// stratum name -> (states, transitions)
   pub strata: BTreeMap<String, (u64, u64)>,
   pub caps: Vec<String>,
+  /// free-form data handed from the workers to the caller (merged in job order, uncapped)
+  pub payload: Vec<Value>,
   /// violation (api, kind) -> count
   pub kinds: BTreeMap<String, u64>,
 }
@@ -97,6 +99,7 @@ impl Part {
       e.0 += s;
       e.1 += t;
     }
+    self.payload.extend(o.payload);
     for (k, c) in o.kinds {
       *self.kinds.entry(k).or_insert(0) += c;
     }
